@@ -10,6 +10,7 @@ S  the property restated on the implementation's output: entry-wise bond sum (in
    Majorana) by eigvalsh with tolerance (numerical support)."""
 from lib import *  # noqa
 import gen
+import argforms as AF
 from koala.lattice import Lattice, permute_vertices
 from koala import hamiltonian as hm
 
@@ -31,6 +32,41 @@ ASSUMPTIONS = ["lattice without self-loops, all edge ends < n_vertices; u, J arb
 
 SJ = 64
 VMAX = {"quick": 130, "thorough": 320}
+
+
+# ------------------------------------------------------------------ argument forms (argforms.py)
+# dtype / memory layout of u, J, the colouring, a vertex ordering and the Majorana matrix are not part of their value.  Only what
+# is handed to koala is re-formed (form chosen from the values, so a failure replays); model and restatement get the plain values.
+AF_FORMS = {
+    "ujk": ["int64", "int8", "int16", "int32", "float64", "float32", "int64+readonly", "int8+readonly", "int64+strided", "int8+strided", "float64+strided"],
+    "coloring": ["int64", "int8", "uint8", "int16", "int32", "intp", "int64+readonly", "int64+strided", "uint8+strided"],
+    "J": ["float64", "float32", "float64+readonly", "float64+strided", "float32+strided", "int64", "int8", "int32+readonly"],   # int forms only when J is integer-valued
+    "ordering": ["int64", "int8", "uint8", "int16", "int32", "intp", "int64+readonly", "int64+strided", "int16+strided", "int64+list"],
+    "majorana_ham": ["complex128", "complex128+F", "complex128+strided", "complex128+readonly", "complex64", "complex64+F"],    # complex64 only when exact
+}
+AF_ALONG = ["int", "np.int64", "np.int32", "np.uint8", "np.intp"]
+AF_EXCLUDED = {
+    ("majorana_hamiltonian.ujk", "list/tuple"): "type hint npt.NDArray; with coloring=None `2*J[0]*ujk` raises TypeError for a sequence (works by broadcasting only when a colouring is given)",
+    ("majorana_hamiltonian.coloring", "list/tuple/float array"): "type hint npt.NDArray[np.integer]; J[tuple] is multi-axis indexing (IndexError), float arrays are not indices",
+    ("bisect_lattice.solution", "list/tuple"): "type hint npt.NDArray[np.integer]; `solution == along` on a list is the scalar False (no dimer edge selected: result silently differs) -- reported to the lead",
+    ("majorana_hamiltonian.J", "list/tuple"): "type hint npt.NDArray[np.floating]; J[coloring] on a list raises TypeError",
+    ("majorana_hamiltonian.J", "Python float"): "docstring says 'npt.NDArray[np.floating] or float' but a float raises TypeError ('float' object is not subscriptable) -- candidate defect reported to the lead, kept out of the generator",
+    ("permute_vertices.ordering", "tuple/float array"): "type hint npt.NDArray[np.integer]; a tuple index means one index per axis (IndexError)",
+    ("majorana_to_fermion_ham.majorana_ham", "list"): "type hint npt.NDArray; .shape is used",
+}
+
+
+def arg_forms(res, arg, values, *key):
+    """`values` in the form handed to koala for argument `arg` (None stays None)"""
+    for (a, f), why in AF_EXCLUDED.items():
+        AF.exclude(res, a, f, why)
+    if values is None:
+        AF.note(res, arg, "None")
+        return None
+    if arg == "along":
+        return AF.choose_scalar(res, "bisect_lattice.along", values, AF_ALONG, *key)
+    base = {"ujk": np.int64, "coloring": np.int64, "ordering": np.int64, "J": np.float64, "majorana_ham": np.complex128}[arg]
+    return AF.choose(res, arg, values, AF_FORMS[arg], *key, base=base)
 
 
 def ser_ham(V, edges, col, u, Jz):
@@ -82,6 +118,8 @@ def build_case(c):
     E = len(edges)
     u = rng.choice([-1, 1], size=E)
     J = rng.integers(1, 3 * SJ, size=3) / float(SJ)
+    if c["seed"] % 4 == 0:
+        J = np.ceil(J)          # integer-valued couplings (1..3): handed to koala also as integer arrays, see arg_forms
     mode = c["col"]
     col = None
     if mode == "random":
@@ -165,7 +203,10 @@ def evaluate(ctx, cs, label):
         def viol(key, what, extra=None):
             res.violation(key, f"V={V} E={E} colouring={'None' if col is None else 'given'}: {what}", dict(c, detail=extra))
         try:
-            H = hm.majorana_hamiltonian(lat, None if col is None else col.copy(), u.copy(), J.copy())
+            a_col, a_u, a_J = arg_forms(res, "coloring", col), arg_forms(res, "ujk", u), arg_forms(res, "J", J)
+            H = hm.majorana_hamiltonian(lat, a_col, a_u, a_J)
+            if not (np.array_equal(a_u, u) and np.array_equal(a_J, J) and (col is None or np.array_equal(a_col, col))):
+                viol("argument-modified", "majorana_hamiltonian modified coloring / ujk / J")
         except Exception as e:
             viol("majorana-exception", f"{type(e).__name__}: {e}")
             continue
@@ -214,7 +255,7 @@ def evaluate(ctx, cs, label):
             g = np.ones(V)
             g[v] = -1
             ug = (g[edges[:, 0]] * u * g[edges[:, 1]]).astype(int) if E else u
-            Hg = np.asarray(hm.majorana_hamiltonian(lat, None if col is None else col.copy(), ug, J.copy()))
+            Hg = np.asarray(hm.majorana_hamiltonian(lat, arg_forms(res, "coloring", col, v), arg_forms(res, "ujk", ug), arg_forms(res, "J", J, v)))
             ex["gauge_moves"] += 1
             if not np.array_equal(Hg, g[:, None] * H * g[None, :]):
                 viol("gauge-not-DHD", f"H(u^g) != D H D for the gauge move at vertex {v}", {"vertex": v})
@@ -222,8 +263,8 @@ def evaluate(ctx, cs, label):
             spec_chk("gauge-spectrum", spectrum(Hg), ev, f"spectrum changes under the gauge move at vertex {v}", {"vertex": v})
         # ---- relabelling
         order = rng.permutation(V)
-        latp = permute_vertices(lat, order.copy())
-        Hp = np.asarray(hm.majorana_hamiltonian(latp, None if col is None else col.copy(), u.copy(), J.copy()))
+        latp = permute_vertices(lat, arg_forms(res, "ordering", order))
+        Hp = np.asarray(hm.majorana_hamiltonian(latp, arg_forms(res, "coloring", col, "p"), arg_forms(res, "ujk", u, "p"), arg_forms(res, "J", J, "p")))
         if not np.array_equal(np.asarray(latp.vertices.positions), pos[order]):
             viol("permute-positions", "permute_vertices: new positions[i] != positions[ordering[i]]")
         if not np.array_equal(Hp, H[np.ix_(order, order)]):
@@ -236,12 +277,12 @@ def evaluate(ctx, cs, label):
             uniq = len({(float(p[0]), float(p[1])) for p in pos}) == V
             for along in range(3):
                 try:
-                    latb = hm.bisect_lattice(lat, col.copy(), along)
+                    latb = hm.bisect_lattice(lat, arg_forms(res, "coloring", col, "b", along), arg_forms(res, "along", along, col))
                 except Exception as e:
                     viol("bisect-exception", f"bisect_lattice(along={along}): {type(e).__name__}: {e}")
                     continue
                 ex["bisections"] += 1
-                Hb = np.asarray(hm.majorana_hamiltonian(latb, col.copy(), u.copy(), J.copy()))
+                Hb = np.asarray(hm.majorana_hamiltonian(latb, arg_forms(res, "coloring", col, "hb", along), arg_forms(res, "ujk", u, "hb", along), arg_forms(res, "J", J, "hb", along)))
                 spec_chk("bisect-spectrum", spectrum(Hb), ev, f"spectrum changes under bisection along colour {along}", {"along": along})
                 if not uniq:
                     res.skip("bisect-ordering-not-recoverable(duplicate positions)")
@@ -384,7 +425,9 @@ def fermion_checks(ctx, c, H, V, second, spec_chk, viol, tag):
     res = ctx.res
     n = V // 2
     try:
-        Fm = np.asarray(hm.majorana_to_fermion_ham(H.copy()))
+        # (a complex64 input gives a complex64 result with the same -- exactly representable -- entries; the harness' own
+        #  eigvalsh below must not run in single precision, hence the cast of the RESULT)
+        Fm = np.asarray(hm.majorana_to_fermion_ham(arg_forms(res, "majorana_ham", H, tag))).astype(complex)
     except Exception as e:
         viol("fermion-exception", f"majorana_to_fermion_ham ({tag}): {type(e).__name__}: {e}")
         return
